@@ -70,8 +70,8 @@ L12 == {{1, 2}}
 L14_24 == {{2, 4}}
 
 RqOf(c, sh) == [shape |-> sh, slot |-> c]
-Args(c) == {[kind |-> k, from |-> f, peer |-> p, rq |-> RqOf(c, sh), base |-> "A", delims |-> d, sto |-> Sto, nonzero |-> nz, ctx |-> cx] :
-              k \in Kinds, f \in Froms, p \in Tos \ {f}, sh \in Shapes, d \in DelimSets, nz \in NonZero, cx \in Ctxs}
+Args(c) == {x \in {[kind |-> k, from |-> f, peer |-> p, rq |-> RqOf(c, sh), base |-> "A", delims |-> d, sto |-> Sto, nonzero |-> nz, ctx |-> cx] :
+                       k \in Kinds, f \in Froms, p \in Tos, sh \in Shapes, d \in DelimSets, nz \in NonZero, cx \in Ctxs} : x.from # x.peer}
 EarlierOver(c) == \A d \in MCCalls : d < c => /\ s[d].pc = "done"
                                               /\ \A a \in 1..Len(ses[d]) : ses[d][a].pc \in {"none", "closed"}
 RespV(c, a) == 10 * c + a           \* what the handler answers on stream (c, a): unique
